@@ -151,7 +151,8 @@ InitNode ==
     rsp |-> <<>>,                                     \* (history) replication round k -> voters whose responses were counted
     reads |-> {},                                     \* pending linearizable reads [id, ridx, vround, ver, must]
     svq |-> TRUE,                                     \* shouldVerifyQuorum
-    rvr |-> 0 ]                                       \* round started by the last read that started one
+    rvr |-> 0,                                        \* round started by the last read that started one
+    fep |-> [q \in Node |-> 0] ]                       \* generation of the follower record kept for q (AddServer replaces the record)
 
 -----------------------------------------------------------------------------
 (* Role changes, as in the code *)
@@ -250,7 +251,8 @@ AERequest(s, n, p) ==
       prev == Max(nx - 1, s.li.idx)
       prevt == IF prev > s.li.idx /\ prev <= LastIdx(s.log) THEN TermAt(s.log, prev) ELSE s.li.term
       es == IF nx > LastIdx(s.log) THEN <<>> ELSE Suffix(s.log, Max(nx, s.li.idx + 1)) IN
-  [kind |-> "ae", from |-> n, term |-> s.term, prev |-> prev, prevt |-> prevt, ents |-> es, commit |-> s.commit]
+  \* fe: the follower record the sending goroutine holds (its continuation updates THAT record)
+  [kind |-> "ae", from |-> n, term |-> s.term, prev |-> prev, prevt |-> prevt, ents |-> es, commit |-> s.commit, fe |-> s.fep[p]]
 
 \* first index of the run of entries carrying the term of the entry at i (not below base + 1)
 FirstOfTerm(lg, i, bound) ==
@@ -318,6 +320,9 @@ OnAEReply(s, n, p, m, r) ==
   ELSE IF p \notin MembersOf(s) \/ s.role # "L" THEN s
   ELSE IF m.term # s.term /\ "NoStaleAEReplyCheck" \notin W THEN s
   ELSE IF r.term > s.term THEN BecomeFollower(s, r.term, "aer")
+  \* AddServer has replaced p's follower record since the request was sent: the continuation
+  \* updates the orphaned record (the answer still counts for its round, see AEReply)
+  ELSE IF m.fe # s.fep[p] THEN s
   ELSE IF ~r.ok THEN [s EXCEPT !.next[p] = r.hint]
   ELSE
     LET top == m.prev + Len(m.ents) IN
@@ -342,7 +347,7 @@ ISRequest(s, n, p) ==
       \* lastIncludedIndex / lastIncludedTerm); cidx = what the file's bytes really contain
       lbl == IF "ISLabelFromNode" \in W THEN s.li ELSE file IN
   \* xops: client operations the bytes contain beyond the label (what an execution can show)
-  [kind |-> "is", from |-> n, term |-> s.term, idx |-> lbl.idx, sterm |-> lbl.term, cidx |-> file.idx,
+  [kind |-> "is", from |-> n, term |-> s.term, fe |-> s.fep[p], idx |-> lbl.idx, sterm |-> lbl.term, cidx |-> file.idx,
    xops |-> Cardinality({i \in (lbl.idx + 1)..file.idx : HasIdx(s.log, i) /\ At(s.log, i).k = "op"}),
    off |-> off, n |-> nbytes, done |-> nbytes < 2 \/ SnapSize = 1, cfg |-> s.scfg]
 
@@ -659,7 +664,9 @@ MemberChangeFor(n, nc, adopt, target) ==
                          !.next = [q \in Node |-> IF q \in (nc.v \cup nc.n) \ MembersOf(s) \/ q = target THEN 1 ELSE s.next[q]],
                          !.match = [q \in Node |-> IF q = target THEN 0 ELSE s.match[q]],
                          !.sfile = [q \in Node |-> IF q = target THEN NoFile ELSE s.sfile[q]],
-                         !.soff = [q \in Node |-> IF q = target THEN 0 ELSE s.soff[q]]]
+                         !.soff = [q \in Node |-> IF q = target THEN 0 ELSE s.soff[q]],
+                         \* (counted at the asynchronous grain only: without requests in flight the generation is unobservable)
+                         !.fep = [q \in Node |-> IF q = target /\ "ae" \in AsyncKinds THEN s.fep[q] + 1 ELSE s.fep[q]]]
          \* (as a submission, a membership request starts a replication round at once: IdleNode)
          s2 == IdleNode(IF SingleServer(s1, n) THEN [s1 EXCEPT !.commit = CommitIndexOf(s1, n)] ELSE s1) IN
      /\ ns' = [ns EXCEPT ![n] = Fin(s, s2)]
@@ -898,7 +905,10 @@ ISReply(m) ==
   /\ LET s == ns[m.to]
          n == m.to  p == m.from
          live == s.role = "L" /\ s.sfile[p].idx # 0 /\ p \in MembersOf(s)
-         c == IF live THEN OnISReply(s, n, p, m.req, m.reply) ELSE s IN
+         \* (an answer for a replaced follower record is only looked at for its term)
+         orph == s.role = "L" /\ p \in MembersOf(s) /\ m.req.fe # s.fep[p]
+         c == IF orph THEN (IF m.reply.term > s.term THEN BecomeFollower(s, m.reply.term, "isr") ELSE s)
+              ELSE IF live THEN OnISReply(s, n, p, m.req, m.reply) ELSE s IN
      /\ ns' = [ns EXCEPT ![n] = Fin(s, c)]
      /\ Hist1(n, c)
   /\ net' = net \ {m}
@@ -929,7 +939,7 @@ AEReply(m) ==
          \* a rejection that moves the follower's next index to or below the compaction boundary is
          \* followed at once, by the same goroutine, by the next piece of the snapshot (request grain)
          isnow == "is" \in AsyncKinds /\ live /\ ~m.reply.ok /\ m.reply.term <= s.term /\ c.role = "L"
-                  /\ c.li.idx > 0 /\ c.next[p] <= c.li.idx /\ Linked(n, p)
+                  /\ c.li.idx > 0 /\ (IF m.req.fe = s.fep[p] THEN c.next[p] ELSE m.reply.hint) <= c.li.idx /\ Linked(n, p)
          file == IF c.sfile[p].idx # 0 THEN c.sfile[p] ELSE c.snap
          ism == IF isnow THEN {[ISRequest([c EXCEPT !.sfile[p] = file], n, p) EXCEPT !.kind = "isq"] @@ [to |-> p, round |-> m.round]} ELSE {}
          c2 == IF isnow THEN [c EXCEPT !.sfile[p] = file, !.soff[p] = SnapSize] ELSE c IN
